@@ -17,6 +17,7 @@ CONTENTS = {
     "fences": "```\ncode\n```\n",
     "hashes": "# heading\n### not a section\n\n",
     "empty": "",
+    "percent": "let f () =\n  frt.Printf1 \"%d%% of %s\\n\" 1\n",
 }
 OLD = {"long": "OLD README LINE\n" * 400}
 
@@ -74,6 +75,8 @@ def stage_and_run(ctx, tool, k, sc):
     for f, cid in sc["fs"].items():
         with open(os.path.join(d, f), "w") as fh:
             fh.write(CONTENTS[cid])
+    if any(l["file"] == "dir.fo" for l in sc["lines"]):
+        os.makedirs(os.path.join(d, "dir.fo"))          # a listed entry that exists but cannot be read as a file
     with open(os.path.join(d, "filelist.txt"), "w") as fh:
         fh.write("\n".join(line_text(l) for l in sc["lines"]) + ("\n" if sc["eofnl"] else ""))
     if sc["old"] != "absent":
@@ -111,8 +114,8 @@ def run_scenarios(ctx, scs):
 
 def run(ctx):
     ctx.rule = ("scenarios enumerated by TLC (FoSampleMdMC.tla): list files with 0..N entries over 6 file names (bases ending in f / o / ., a "
-                "name without .fo, a missing file) x titles (none, one word, several words with double spaces, leading space, empty after "
-                "the space) x blank-line placement x final newline x a pre-existing longer README.md; file contents: ordinary source, no "
+                "name without .fo, a name with %, a missing file, a directory) x titles (none, one word, several words with double spaces, leading space, empty after "
+                "the space, with % directives, with markdown / brace / backtick characters) x blank-line placement x final newline x a pre-existing longer README.md; file contents: ordinary source, no "
                 "trailing newline, containing ``` fences, containing # lines, empty. Each scenario is one run of the real tool in a staged "
                 "directory. distinct = distinct scenarios; non-trivial = >= 1 entry")
     sd = ctx.spec_dir()
